@@ -102,6 +102,7 @@ impl Ctx {
         ServerConfig {
             snapshot_days: self.days,
             snapshot_versions: self.versions,
+            ..Default::default()
         }
     }
 
@@ -1239,6 +1240,24 @@ impl Ctx {
                 con.execute_batch(&format!(
                     "CREATE TRIGGER IF NOT EXISTS verif_fault BEFORE {stmt} ON {table} BEGIN SELECT RAISE(ABORT, 'injected statement fault'); END;"
                 )).expect("sqlfault trigger");
+                self.sqlfault = true;
+                self.emit(format!("fault {k}:before"), "faultset".into());
+                return;
+            }
+            ["sqlfaultrb", k] => {
+                // a TRANSIENT failure of the kind after which SQLite rolls the whole transaction back on its
+                // own (disk full, I/O error, out of memory: here RAISE(ROLLBACK) from a trigger): the UPDATE that
+                // moves the latest pointer fails as long as the version row it names is in the table —
+                // i.e. while the transaction still holds the uncommitted INSERT — and no longer once
+                // the rollback has removed that row.  The model is told that storage call K of the
+                // next operation fails without effect.  SQLite only.
+                let path = self.data_dir().join("taskchampion-sync-server.sqlite3");
+                let con = rusqlite::Connection::open(&path).expect("sqlfaultrb open");
+                con.execute_batch(
+                    "CREATE TRIGGER IF NOT EXISTS verif_fault BEFORE UPDATE OF latest_version_id ON clients \
+                     WHEN EXISTS (SELECT 1 FROM versions WHERE version_id = NEW.latest_version_id) \
+                     BEGIN SELECT RAISE(ROLLBACK, 'injected fault: disk I/O error, transaction rolled back'); END;"
+                ).expect("sqlfaultrb trigger");
                 self.sqlfault = true;
                 self.emit(format!("fault {k}:before"), "faultset".into());
                 return;
